@@ -21,6 +21,7 @@ import (
 	"context"
 	"errors"
 	"fmt"
+	"io"
 	"strconv"
 	"strings"
 
@@ -273,6 +274,12 @@ func (r *Rec) statement(i int, st Stmt, query string) *wire.PreparedStatement {
 				e.Out = r.delta(from)
 				r.add(e)
 				r.add(Ev{Kind: "ret", Stmt: i, Err: op[1:]})
+				switch op[1:] {
+				case "EOF": // an application error that happens to wrap io.EOF (e.g. a truncated upstream stream)
+					return fmt.Errorf("upstream closed: %w", io.EOF)
+				case "UEOF":
+					return fmt.Errorf("upstream truncated: %w", io.ErrUnexpectedEOF)
+				}
 				return errors.New(op[1:])
 			case op == "panic":
 				r.add(e)
